@@ -114,8 +114,8 @@ fn escape_template(input: &str) -> String {
     escape_string(input).replace('~', "~~")
 }
 
-fn literal(special: &FormatSpecial) -> String {
-    match special {
+fn literal(special: &FormatSpecial) -> CResult<String> {
+    Ok(match special {
         FormatSpecial::Alarm => "\\a".to_string(),
         FormatSpecial::Ascii(val) => {
             escape_template(&char::from_u32(*val as u32).unwrap_or('0').to_string())
@@ -123,13 +123,16 @@ fn literal(special: &FormatSpecial) -> String {
         FormatSpecial::Backslash => "\\\\".to_string(),
         FormatSpecial::Backspace => "\\b".to_string(),
         FormatSpecial::CarriageReturn => "\\r".to_string(),
-        FormatSpecial::Clear => "\\c".to_string(),
+        // Scheme strings have no such escape, and a format cannot be stopped halfway
+        FormatSpecial::Clear => {
+            return Err(CompileError::UnsupportedFormat(format!("{special:?}")))
+        }
         FormatSpecial::Form => "\\f".to_string(),
         FormatSpecial::Newline => "\\n".to_string(),
         FormatSpecial::Null => "\\0".to_string(),
         FormatSpecial::TabHorizontal => "\\t".to_string(),
         FormatSpecial::TabVertical => "\\v".to_string(),
-    }
+    })
 }
 
 fn placeholder(field: &FormatField) -> CResult<&'static str> {
@@ -255,7 +258,7 @@ impl TargetScheme for Vec<FormatElement> {
             .map(|el| match el {
                 FormatElement::Literal(s) => Ok(escape_template(s)),
                 FormatElement::Field(f) => placeholder(f).map(|s| s.to_string()),
-                FormatElement::Special(v) => Ok(literal(v)),
+                FormatElement::Special(v) => literal(v),
             })
             .collect::<CResult<Vec<String>>>()?
             .join("");
